@@ -34,6 +34,9 @@ def intent_ladder(prog, f: FuncInfo, subject: str) -> Dict[str, List[ast.stmt]]:
 def run(chk: Check) -> None:
     prog = chk.prog
     dispatch(chk)
+    # a process continued by a launcher listens and announces on the communicator the launcher was configured with (shared with C17)
+    from .c17 import continued_with_launcher_context
+    continued_with_launcher_context(chk, 'PAIR-subscription')
     rpc_reply(chk)
     announcement(chk)
     subscriptions(chk)
@@ -384,6 +387,14 @@ def subscriptions(chk: Check) -> None:
                                    and [norm(a) for a in c.args[0].args] == [f'self._communicator.{rem}', idvar] for c in _calls(nxt[0]))
         chk.ob('PAIR-subscription', init, ok, f'{add}: the matching {rem}(identifier) is registered as cleanup immediately after a successful subscribe (a terminated process no '
                'longer receives messages)', kind=f'{add}:cleanup')
+    # a tolerated failure of ONE subscription (the RPC registration timing out) does not cost the other: the two are not under one try whose handler tolerates the
+    # failure -- otherwise a process that could not register for RPCs also never hears pause_all / kill_all, while the direct call still works
+    subs = {add: [c for c in ast.walk(init.node) if isinstance(c, ast.Call) and last_name(c) == add] for add in ('add_rpc_subscriber', 'add_broadcast_subscriber')}
+    shared = [t for t in ast.walk(init.node) if isinstance(t, ast.Try) and t.handlers
+              and all(any(any(x is c for b in t.body for x in ast.walk(b)) for c in subs[a_]) for a_ in subs if subs[a_])
+              and not all(any(isinstance(x, ast.Raise) for b in h.body for x in ast.walk(b)) for h in t.handlers)]
+    chk.ob('PAIR-subscription', init, all(subs.values()) and not shared, 'the RPC and the broadcast subscription are attempted independently (a tolerated failure of one does not skip the other)',
+           node=shared[0] if shared else None, kind='subscriptions-independent')
     # "a terminated process no longer receives messages" -- also one that is LOADED in a terminal state: init() runs after the load and subscribes; the
     # un-subscription is a cleanup, and cleanups run on the transition INTO a terminal state, which a process loaded terminated never makes
     from ..facts import not_terminated
